@@ -342,8 +342,41 @@ func c12PartialConsent(c *run.Ctx) {
 			if !sameStrings(in.AR.GetGrantedAudience(), grAud) {
 				c.Violate(run.Violation{Kind: "token-audience-not-granted", Key: "token-audience-not-granted partial-consent " + where, Detail: fmt.Sprintf("token audience %v, the resource owner granted %v (requested %v)", in.AR.GetGrantedAudience(), grAud, reqAud)})
 			}
+			if _, cl, ok := world.DecodeJWT(tok); ok && jwt {
+				// a JWT access token carries what was granted in its own claims, whatever the stored record says
+				var aud, scp []string
+				switch a := cl["aud"].(type) {
+				case string:
+					aud = []string{a}
+				case []interface{}:
+					for _, e := range a {
+						aud = append(aud, fmt.Sprint(e))
+					}
+				}
+				switch sc := cl["scp"].(type) {
+				case []interface{}:
+					for _, e := range sc {
+						scp = append(scp, fmt.Sprint(e))
+					}
+				case string:
+					scp = strings.Fields(sc)
+				}
+				if sc, ok := cl["scope"].(string); ok && len(scp) == 0 {
+					scp = strings.Fields(sc)
+				}
+				c.Count("c12_jwt_claims_checked", 1)
+				if !sameStrings(aud, grAud) {
+					c.Violate(run.Violation{Kind: "token-audience-not-granted", Key: "token-audience-not-granted jwt-claims partial-consent " + where, Detail: fmt.Sprintf("the JWT access token's aud claim is %v, the resource owner granted %v (requested %v)", aud, grAud, reqAud)})
+				}
+				if !sameStrings(scp, grScopes) {
+					c.Violate(run.Violation{Kind: "token-scope-not-granted", Key: "token-scope-not-granted jwt-claims partial-consent " + where, Detail: fmt.Sprintf("the JWT access token's scope claim is %v, the resource owner granted %v", scp, grScopes)})
+				}
+			}
 		}
-		for _, rt := range []string{"code", "id_token token", "code token", "code id_token token"} {
+		for gi, rt := range []string{"code", "id_token token", "code token", "code id_token token", "code", "code token"} {
+			if gi >= 4 {
+				grAud = []string{} // audiences are requested (inside the policy) and the resource owner grants none of them
+			}
 			q := url.Values{"client_id": {"c12p"}, "response_type": {rt}, "state": {"state-0123456789"}, "nonce": {"nonce-0123456789"}, "redirect_uri": {"https://c12p.example/cb"},
 				"scope": {strings.Join(reqScopes, " ")}, "audience": {strings.Join(reqAud, " ")}}
 			cons := world.Consent{Scopes: grScopes, NoAud: true, ReqMut: func(ar fosite.AuthorizeRequester) {
